@@ -360,6 +360,49 @@ fn c04_gossip(property: &str, seed: u64) -> Plan {
     p
 }
 
+/// C17 with contradicting reports in one call: three peers on a clean network; at one instant all
+/// but node 0 stop, and right after that node 0 is handed two well-formed packets (the genuine last
+/// input packets of two of the dead peers, only their connection statuses changed - scripted peers):
+/// peer A reports peer B's player gone, peer B reports peer A's player gone, both naming the last
+/// frame node 0 itself holds. Whom node 0 drops on whose word must not depend on hash order.
+fn c17_contradicting_reports(property: &str, seed: u64) -> Plan {
+    let c = Ch::new(seed, "c17x");
+    let mut p = s1(property, "c17-contradicting-disconnect-reports", seed, &S1Opts { faults: false, min_peers: 3, max_peers: 3, allow_spectators: false, frames_lo: 300, frames_hi: 400, long_run_pct: 0, ..Default::default() });
+    // (three peers, not four: a third dead peer's genuine, merely out-of-date report about the
+    // player in question would enter the minimum - the recorded C10 stale-gossip defect)
+    p.cfg.clock_bump_us = 0;
+    p.cfg.timeout_ms = 2000;
+    p.cfg.notify_ms = 500;
+    for n in p.nodes.iter_mut() {
+        n.tick.pauses.clear();
+        n.tick.use_wait = false;
+    }
+    let t = c.range(&[1], ms(1500), ms(3000));
+    let handle_of = |p: &Plan, i: usize| match &p.nodes[i].kind {
+        NodeKind::Peer { locals } => locals[0],
+        _ => 0,
+    };
+    for i in 1..3 {
+        p.nodes[i].tick.stop_us = Some(t);
+    }
+    let (a, b) = if c.chance(&[2], 500_000) { (1, 2) } else { (2, 1) };
+    // after everything the dead peers still had in flight has arrived (a report naming an earlier
+    // last frame than node 0 holds is the recorded C10 defect), before any timer fires
+    let at = t + ms(400) + c.range(&[3], 0, ms(80));
+    let (ha, hb) = (handle_of(&p, a), handle_of(&p, b));
+    let mut pair = vec![(a, hb), (b, ha)];
+    if c.chance(&[4], 500_000) {
+        pair.reverse();
+    }
+    for (from, gone) in pair {
+        p.injects.push(Inject { at_us: at, to: 0, from_addr: from as u16, payload: Payload::MutateLastInput(InputMutation::Piggyback { garbage: 3, ack_delta: 0, disconnect_player: Some(gone), last_frame: i32::MIN }) });
+    }
+    p.horizon_us = at + ms(3500);
+    p.oracle.liveness = None;
+    p.oracle.lifecycle_timing = false;
+    p
+}
+
 pub fn synctest(property: &str, seed: u64, faulty: bool, invalid: bool) -> Plan {
     let c = Ch::new(seed, "synctest");
     let np = c.range(&[1], 1, 4) as usize;
@@ -496,6 +539,7 @@ pub fn generate(property: &str, tier: &str, seed: u64, index: u64) -> Plan {
             p.injects.clear();
             p
         }
+        "C17" if index % 13 == 12 => c17_contradicting_reports(property, seed),
         "C17" if index % 11 == 10 => {
             // handshakes under loss, duplication and round trips far above the retry interval: when a
             // session turns Running must not depend on hash order or on the handshake numbers
